@@ -971,3 +971,54 @@ func init() {
 		}
 	})
 }
+
+// ---------- scenario 10: the peer never becomes ready, gives up by itself, and is shut down ----------
+
+func init() {
+	registerND("cluster-never-ready-gives-up-then-shutdown", 1, 2, func(t *testing.T) *e1.Exec {
+		ctx := context.Background()
+		if raceMode {
+			ipfscluster.ReadyTimeout = 50 * time.Millisecond
+		}
+		_, hosts := clus.NewMocknet(ctx, 0, 1)
+		sh := clus.NewShared([]peer.ID{hosts[0].ID()})
+		cons := clus.NewMemConsensusNotReady(hosts[0].ID(), sh) // never marked ready
+		tcfg := &stateless.Config{}
+		tcfg.Default()
+		tcfg.ConcurrentPins = 1
+		tr := stateless.New(tcfg, hosts[0].ID(), "p0", cons.State)
+		p, err := clus.NewPeer(ctx, &clus.PeerParts{Host: hosts[0], Consensus: cons, Shared: sh, Tracker: tr})
+		if err != nil {
+			t.Fatal(err)
+		}
+		// the consensus start times out: the peer shuts itself down
+		if raceMode {
+			time.Sleep(300 * time.Millisecond)
+		} else {
+			time.Sleep(ipfscluster.ReadyTimeout + time.Second)
+		}
+		quiesce()
+		var returned atomic.Int32
+		return &e1.Exec{
+			Threads: map[string]func(){
+				"T0": func() { p.C.Shutdown(ctx); returned.Add(1) },
+				"T1": func() { p.C.Shutdown(ctx); returned.Add(1) },
+			},
+			After: func(runErr error) (string, []e1.Finding) {
+				quiesce()
+				done := false
+				select {
+				case <-p.C.Done():
+					done = true
+				default:
+				}
+				var fs []e1.Finding
+				if !done {
+					fs = append(fs, e1.Finding{Key: "shutdown-returned-but-peer-not-done", Detail: "Shutdown returned to both callers but Done() is not signalled"})
+				}
+				return fmt.Sprintf("shutdown-returned=%d done=%v", returned.Load(), done), fs
+			},
+			Teardown: func() { p.Stop(); hosts[0].Close() },
+		}
+	})
+}
